@@ -31,6 +31,16 @@ def cases(rng, tier, Case):
     for d in EDGE:
         for cfg in ("CsW", "Cs", "mp", "msp", "nebliatcfqhurHLp", "nebliatcfqhurHLpxX1", mdgen.gen_cfg(rng, require="p")):
             res.append(Case("parse %s 100 T %s" % (cfg, hx(d)), "edge", {"cfg": cfg, "src": hx(d)}))
+    # inline nesting that meets the nesting limit exactly, with an empty or blank innermost description, under plugin
+    # sets without the emphasis rules (no clean-up pass) -- seed C14-8
+    for nest in (1, 2, 3, 10, 100):
+        for k in (nest - 1, nest, nest + 1):
+            if k < 1:
+                continue
+            for d in ("![" * k + "](u)" * k, "[" * k + "](u)" * k, "[![" * (k // 2 + 1) + "](a)](b)" * (k // 2 + 1), "![" * k + " ](u)" * k,
+                      "x ![" * k + "](u) y" * k, "%" * 1 + "![" * k + "](u)" * k + " %"):
+                for cfg in ("nebliatcfqhurHLp", "lip", "eblip8", "CsW"):
+                    res.append(Case("parse %s %d T %s" % (cfg, nest, hx(d)), "limit", {"cfg": cfg, "src": hx(d)}, compare=len(d) < 400))
     for i, d in enumerate(corpus.spec_inputs()):
         if tier == "quick" and i % 4:
             continue
